@@ -47,25 +47,33 @@ def classify_change(before, after, before_nos, after_nos, entry):
 
 
 def watch(owner, name, entry, argpos=0, argname=None, ctx=None, is_property=False):
-    """Install a snapshot check around `owner.name`."""
+    """Install a snapshot check around `owner.name`; argpos/argname may be tuples: every named argument is watched."""
+    positions = argpos if isinstance(argpos, tuple) else (argpos,)
+    names = argname if isinstance(argname, tuple) else (argname,)
+
     def pre(*a, **k):
-        arg = a[argpos] if len(a) > argpos else k.get(argname)
-        if arg is None or isinstance(arg, (str, bytes, int, float)):
-            return None
-        return arg, snapshot.snap(arg), snapshot.snap(arg, drop_classes=("Segment",))
+        tokens = []
+        for pos, nm in zip(positions, names):
+            arg = a[pos] if len(a) > pos else k.get(nm)
+            if arg is None or isinstance(arg, (str, bytes, int, float)):
+                continue
+            tokens.append((nm, arg, snapshot.snap(arg), snapshot.snap(arg, drop_classes=("Segment",))))
+        return tokens or None
 
     def post(ret, exc, token, a, k):
         if token is None or exc is not None:
             return
-        arg, s0, n0 = token
         c = core.CURRENT
-        c.hook("snapshot-check")
-        c.check()
-        s1 = snapshot.snap(arg)
-        if s1 != s0:
-            n1 = snapshot.snap(arg, drop_classes=("Segment",))
-            key, text = classify_change(s0, s1, n0, n1, entry)
-            c.violation(key, f"{entry} changed its argument ({type(arg).__name__}): {text[:400]}", {"entry_point": entry, "argument": type(arg).__name__})
+        for nm, arg, s0, n0 in token:
+            c.hook("snapshot-check")
+            c.check()
+            s1 = snapshot.snap(arg)
+            if s1 != s0:
+                n1 = snapshot.snap(arg, drop_classes=("Segment",))
+                label = entry if len(positions) == 1 else f"{entry}({nm})"
+                key, text = classify_change(s0, s1, n0, n1, label)
+                c.violation(key, f"{label} changed its argument ({type(arg).__name__}): {text[:400]}",
+                            {"entry_point": entry, "argument": type(arg).__name__, "parameter": nm})
 
     h = core.Hook(owner, name, pre=pre, post=post, ctx=ctx, label=entry)
     if not isinstance(owner, type):
@@ -92,7 +100,7 @@ def install(ctx):
     watch(EX, "save_musicxml", "save_musicxml", 0, "score_data", ctx)
     watch(EM, "save_score_midi", "save_score_midi", 0, "score_data", ctx)
     watch(EM, "save_performance_midi", "save_performance_midi", 0, "performance_data", ctx)
-    watch(EMA, "save_match", "save_match", 0, "alignment", ctx)
+    watch(EMA, "save_match", "save_match", (0, 1, 2), ("alignment", "performance_data", "score_data"), ctx)
     watch(EMA, "matchfile_from_alignment", "matchfile_from_alignment", 0, "alignment", ctx)
     watch(M, "note_array_from_part", "note_array_from_part", 0, "part", ctx)
     watch(M, "note_array_from_part_list", "note_array_from_part_list", 0, "part_list", ctx)
@@ -243,6 +251,7 @@ def check_iteration(ctx, cont, kind):
 def plan(tier, seed):
     n = 16 * 4 if tier == "quick" else 16 * 120
     return [["score", i] for i in range(n)] + [["perf", i] for i in range(n // 2)] + [["iter", i] for i in range(n // 4)] \
+        + [["match", i] for i in range(n // 2)] \
         + [["divchange", i] for i in range(n // 4)]
 
 
@@ -259,7 +268,7 @@ def run_pair_checks(ctx, entries, rng, label, arg_digest, nobj):
         ctx.case([name, arg_digest], nobj >= 20, cls=name, sample={"entry_point": name, "argument": label, "objects_in_argument": nobj})
     # pairs in both orders (sampled)
     names = [e for e in entries]
-    for _ in range(4):
+    for _ in range(4 if len(names) >= 2 else 0):
         (na, fa), (nb, fb) = rng.sample(names, 2)
         ok, ra1 = ctx.try_call(fa)
         ok2, rb1 = ctx.try_call(fb)
@@ -296,6 +305,29 @@ def run_item(ctx, item):
         if isinstance(sc.part_structure[0], S.PartGroup):
             ctx.try_call(sc.part_structure[0].pretty)
         check_iteration(ctx, sc, "Score")
+    elif kind == "match":
+        # export of an alignment to a match file: the alignment, the performance and the score are all arguments
+        from workloads import c08_align
+        case = c08_align.make_case(rng, size=rng.choice(["tiny", "small", "small", "large"]))
+        ppart = c08_align.build_ppart(case.perf)
+        from partitura.performance import Performance
+        perf_arg = ppart if rng.random() < 0.6 else Performance(ppart, id="perf")
+        score_arg = case.part if rng.random() < 0.6 else S.Score([case.part], id="sc")
+        alignment = case.alignment
+        opts = dict(assume_unfolded=rng.random() < 0.7, mpq=case.perf["mpq"], ppq=case.perf["ppq"])
+
+        def sm():
+            mf = partitura.save_match(alignment, perf_arg, score_arg, out=None, **opts)
+            return [str(l.matchline) for l in mf.lines] if mf is not None else None
+        nobj = n_objects(score_arg)
+
+        def na_():
+            return case.part.note_array()
+
+        def pna_():
+            return ppart.note_array()
+        run_pair_checks(ctx, [("save_match", sm), ("Part.note_array", na_), ("PerformedPart.note_array", pna_)], rng,
+                        "alignment+performance+score", core.digest(case.perf) + str(item[1]), nobj)
     elif kind == "divchange":
         # configurations the shared generator does not make: the divisions change INSIDE a measure, at a position where an
         # object starts, inside a note, or in a silent stretch where the timeline has no time point at all
